@@ -106,6 +106,9 @@
 #ifndef VQ_DAMAGE
 #define VQ_DAMAGE 0       /* C04: N > 0 = one symbolic byte at one of N positions (fork) of the page region [4, footer); only memory safety, termination and leaks are judged */
 #endif
+#ifndef VQ_DAMAGE_PREFIX
+#define VQ_DAMAGE_PREFIX 0
+#endif
 #ifndef VQ_DAMAGE0
 #define VQ_DAMAGE0 0      /* first damaged position, relative to byte 4 */
 #endif
@@ -455,9 +458,18 @@ void harness(void) {
 #if VQ_DAMAGE
     {   /* C04 on files with dictionary / mixed pages: an arbitrary byte somewhere in the pages (headers, dictionary, level and index streams) */
         size_t span = (size_t)LAY.footer_off - 4;
+  #if VQ_DAMAGE_PREFIX
+        /* the 4-byte length prefix of the level section at the start of a page body (all 2^32 values), page chosen by fork */
+        int dpage = symx_choice(VQ_NPAGES + (DICT ? 1 : 0), "damaged page");
+        size_t dpos = LAY.page[0][col][dpage].body_off;
+        symx_assume(dpos + 4 <= LAY.footer_off);
+        symx_observe_int(dpos, "damaged offset");
+        symx_make_symbolic(f + dpos, 4, "w");
+  #else
         size_t dpos = 4 + ((size_t)VQ_DAMAGE0 + (size_t)symx_choice(VQ_DAMAGE, "damaged position")) % span;
         symx_observe_int(dpos, "damaged offset");
         symx_make_symbolic(f + dpos, 1, "w");
+  #endif
     }
 #endif
     carquet_error_t err; memset(&err, 0, sizeof err);
